@@ -207,4 +207,5 @@ func runC04(l *core.Ledger) {
 	// the id is echoed from the handler's own request envelope: one fresh Message per
 	// handler start, also for a handler that released early and replies later
 	l.With(map[string]string{"C03-F5": "C04-H5"}, func() { c03F5(l, sl) })
+	c03F9(l, sl, "C04-H3")
 }
